@@ -277,6 +277,10 @@ def run(ctx):
     ts = common.typestate_asserts_hold(ctx, esc, 'M4')
     S = ts.S
     RS = [s for s in S.names if s.endswith('_REQ_SENT')]
+    # the timer re-emits the stored request only while it is outstanding: in an idle state (ESTABLISHED, REKEYED, ..) the stored
+    # request has been answered, and sending it again puts an already used Message ID on the wire (shared with C09 S2 / C13 X4 / C16 D2)
+    from .c09 import timer_coverage
+    timer_coverage(ctx, ts, 'M4')
     gens = common.request_generators(ctx)
     ctx.floor('M4 request generators', len(gens), 7)
     gen_quals = set(g_['fi'].qual for g_ in gens)
